@@ -45,6 +45,8 @@ structure Codec where
   weierstrass : Bool
   /-- tag byte / flag bits of a (base-format) byte string are among those the format defines -/
   flagsOk : String → List Nat → Bool := fun _ _ => true
+  /-- byte layout of a base format (`none`: the wire coordinates are not those of the rendered point) -/
+  layout : String → Option Layout := fun _ => none
 
 def sec1Flags (f : String) (bs : List Nat) : Bool :=
   match bs with
@@ -134,15 +136,19 @@ def codec? (name : String) : Option Codec :=
       (fun f bs => flt (if f == "compressed" then Mont.decodeCompressed io a d 32 bs else Mont.decodeUncompressed io a d c 32 bs))
       (fun x y => flt (Mont.fromAffine io a d c 32 (Fp.ofNat q (x.headD 0)) (Fp.ofNat q (y.headD 0))))
       none 32 64
-  if name == "k256" then (sec1 k256).map fun c => { c with flagsOk := sec1Flags }
-  else if name == "p256" then (sec1 p256).map fun c => { c with flagsOk := sec1Flags }
-  else if name == "pallas" then pasta pallas
-  else if name == "vesta" then pasta vesta
-  else if name == "ed25519" then ed false
-  else if name == "ed25519sub" then ed true
+  let lay (hdr : Nat) (be : Bool) (len k flagsC flagsU : Nat) (strictU : Bool) (f : String) : Option Layout :=
+    if f == "compressed" then some ⟨hdr, be, len, k, flagsC, false⟩
+    else if f == "uncompressed" then some ⟨hdr, be, len, 2 * k, flagsU, strictU⟩
+    else none
+  if name == "k256" then (sec1 k256).map fun c => { c with flagsOk := sec1Flags, layout := lay 1 true 32 1 0 0 false }
+  else if name == "p256" then (sec1 p256).map fun c => { c with flagsOk := sec1Flags, layout := lay 1 true 32 1 0 0 false }
+  else if name == "pallas" then (pasta pallas).map fun c => { c with layout := lay 0 false 32 1 1 0 false }
+  else if name == "vesta" then (pasta vesta).map fun c => { c with layout := lay 0 false 32 1 1 0 false }
+  else if name == "ed25519" then (ed false).map fun c => { c with layout := lay 0 false 32 1 1 0 true }
+  else if name == "ed25519sub" then (ed true).map fun c => { c with layout := lay 0 false 32 1 1 0 true }
   else if name == "curve25519" then mont false
   else if name == "curve25519sub" then mont true
-  else if name == "bls12381g1" then (fun (o : Option Codec) => o.map fun c => { c with flagsOk := blsFlags }) <| withPrime blsP none fun q =>
+  else if name == "bls12381g1" then (fun (o : Option Codec) => o.map fun c => { c with flagsOk := blsFlags, layout := lay 0 true 48 1 3 3 false }) <| withPrime blsP none fun q =>
     let C := bls12381g1
     let io := g1IO q
     let a := Fp.ofNat q C.a
@@ -151,9 +157,10 @@ def codec? (name : String) : Option Codec :=
       (fun f P => some (if f == "compressed" then Bls.encodeCompressed io 48 (wOf P) else Bls.encodeUncompressed io 48 (wOf P)))
       (fun f bs => (if f == "compressed" then Bls.decodeCompressed io a b C.n 48 bs else Bls.decodeUncompressed io a b C.n 48 bs).map wTo)
       (fun x y => (Bls.fromAffine a b C.n (Fp.ofNat q (x.headD 0)) (Fp.ofNat q (y.headD 0))).map wTo)
-      (some fun x odd => (fromAffineX (fpIO q) a b (Fp.ofNat q (x.headD 0)) odd).map wTo)
+      (some fun x odd => ((fromAffineX (fpIO q) a b (Fp.ofNat q (x.headD 0)) odd).bind fun P =>
+        if Bls.inSub a C.n P then some P else none).map wTo)
       48 96
-  else if name == "bls12381g2" then (fun (o : Option Codec) => o.map fun c => { c with flagsOk := blsFlags }) <| withPrime blsP none fun q =>
+  else if name == "bls12381g2" then (fun (o : Option Codec) => o.map fun c => { c with flagsOk := blsFlags, layout := lay 0 true 48 2 3 3 false }) <| withPrime blsP none fun q =>
     let C := bls12381g2
     let io := g2IO q
     let a : Fp2 q := ⟨Fp.ofNat q C.a, Fp.ofNat q 0⟩
@@ -203,11 +210,31 @@ def keyFor (cd : Codec) (kind cv fmt0 : String) (P : Pt) : String :=
 def parseOk? (C : Params) (rhs : String) : Option Pt :=
   if rhs.startsWith "ok:" then parse? C (rhs.drop 3).toString else none
 
-/-- verdict for a decoder-like call: accepted ⇒ valid element (property), accept/reject and value mirror the model -/
-def decVerdict (cd : Codec) (keyInvalid : String) (upToSign : Bool) (model : Option Pt) (rhs : String) : Verdict :=
+/-- how a decoder-like call was made: what the input denotes when the mirror model has no answer,
+and whether the input is the canonical encoding of the model's answer -/
+structure DecInput where
+  /-- the accepted element `P` is the one the input denotes (used when the mirror model rejects);
+  `none`: the driver cannot tell -/
+  denotes : Pt → Option Bool
+  /-- the input is the canonical encoding of `M` (encoder output / reduced affine coordinates) -/
+  canonicalFor : Pt → Bool
+
+/-- verdict for a decoder-like call.  Property clauses decided here:
+* accepted ⇒ valid element (on the curve, in the subgroup where the type promises it);
+* accepted ⇒ the element is the one the bytes denote (coordinates read per the format, reduced mod p);
+* the canonical encoding of a valid element is accepted (that is the round trip);
+accept / reject of non-canonical inputs mirrors the model. -/
+def decVerdict (cd : Codec) (keyInvalid keyValue keyRejects : String) (upToSign : Bool) (inp : DecInput)
+    (model : Option Pt) (rhs : String) : Verdict :=
   let C := cd.C
   if rhs.startsWith "panic" then .bad ("decode-panic-" ++ C.name) rhs
-  else if rhs == "reject" then mirror (renderDec C model) rhs
+  else if rhs == "reject" then
+    match model with
+    | none => .ok
+    | some M =>
+      if !upToSign && inp.canonicalFor M && cd.valid M == some true then
+        .bad keyRejects ("rejected the canonical encoding of the valid element " ++ render C M)
+      else .diff (renderDec C model)
   else match parseOk? C rhs with
     | none => .unsupported "rhs"
     | some P =>
@@ -219,7 +246,19 @@ def decVerdict (cd : Codec) (keyInvalid : String) (upToSign : Bool) (model : Opt
         match model with
         | some M => if P == M || P == neg C M then .ok else .diff (renderDec C model)
         | none => .diff "reject"
-      else mirror (renderDec C model) rhs
+      else
+        match model with
+        | some M =>
+          if P == M then .ok
+          -- reserved identity encoding `x = 0` of the Weierstrass forms: a point `(0, y)` instead of the
+          -- identity is the other reading of the same bytes (the convention is mirrored, not demanded)
+          else if cd.weierstrass && M.coords.isNone && (P.coords.map fun c => c.1.all (· == 0)) == some true then
+            .diff (renderDec C model)
+          else .bad keyValue ("accepted, but the input denotes " ++ render C M ++ " observed=" ++ rhs)
+        | none =>
+          match inp.denotes P with
+          | some false => .bad keyValue ("accepted, but the input does not denote the returned element: " ++ rhs)
+          | _ => .diff "reject"
 
 def handlePoint (op cv fmt : String) (args : List String) (rhs : String) : Verdict :=
   match codec? cv with
@@ -267,20 +306,42 @@ def handlePoint (op cv fmt : String) (args : List String) (rhs : String) : Verdi
           .bad ("decode-len-" ++ cv ++ "-" ++ baseName cd fmt) ("accepted " ++ toString b.length ++ " bytes")
         else if rhs.startsWith "ok:" && !(cd.flagsOk (baseName cd fmt) (if fmt == "cbor" then (Cbor.unwrap? b).getD [] else b)) then
           .bad ("decode-flags-" ++ cv ++ "-" ++ baseName cd fmt) ("accepted a tag/flag combination outside the format: " ++ rhs)
-        else decVerdict cd ("decode-invalid-" ++ cv ++ "-" ++ baseName cd fmt) (cd.upToSign fmt) model rhs
+        else
+          let base := baseName cd fmt
+          let payload := if fmt == "cbor" then Cbor.unwrap? b else some b
+          let canon := payload.bind fun pl => (cd.layout base).bind fun L => L.canon C.p pl
+          let inp : DecInput :=
+            { denotes := fun P => match canon, cd.encode base P with
+                | some c, some e => some (c == e)
+                | _, _ => none,
+              canonicalFor := fun M => cd.encode fmt M == some b }
+          decVerdict cd ("decode-invalid-" ++ cv ++ "-" ++ base)
+            ("decode-value-" ++ cv ++ "-" ++ base) ("decode-rejects-valid-" ++ cv ++ "-" ++ base)
+            (cd.upToSign fmt) inp model rhs
     | _, _ => .unsupported ("C13 op " ++ op)
 
 def handle (op : String) (args : List String) (rhs : String) : Verdict :=
   match op, args with
   | "aff", [cv, xs, ys] =>
     match codec? cv, coords? xs, coords? ys with
-    | some cd, some x, some y => decVerdict cd ("affine-invalid-" ++ cv) false (cd.aff x y) rhs
+    | some cd, some x, some y =>
+      let mont := cd.upToSign "compressed"
+      let inp : DecInput :=
+        { denotes := fun P => if mont then none else some (P.coords == some (x.map (· % cd.C.p), y.map (· % cd.C.p))),
+          canonicalFor := fun _ => x.all (· < cd.C.p) && y.all (· < cd.C.p) }
+      decVerdict cd ("affine-invalid-" ++ cv) ("affine-value-" ++ cv) ("affine-rejects-valid-" ++ cv) false inp (cd.aff x y) rhs
     | _, _, _ => .unsupported "aff args"
   | "affx", [cv, xs, os] =>
     match codec? cv, coords? xs, os.toNat? with
     | some cd, some x, some odd =>
       match cd.affx with
-      | some f => decVerdict cd ("affx-invalid-" ++ cv) false (f x odd) rhs
+      | some f =>
+        let inp : DecInput :=
+          { denotes := fun P => match P.coords with
+              | some (px, py) => some (px == x.map (· % cd.C.p) && py.headD 0 % 2 == odd)
+              | none => some false,
+            canonicalFor := fun _ => x.all (· < cd.C.p) }
+        decVerdict cd ("affx-invalid-" ++ cv) ("affx-value-" ++ cv) ("affx-rejects-valid-" ++ cv) false inp (f x odd) rhs
       | none => .unsupported "affx on a curve without FromAffineX"
     | _, _, _ => .unsupported "affx args"
   | "gtdec", [bs] =>
@@ -290,7 +351,12 @@ def handle (op : String) (args : List String) (rhs : String) : Verdict :=
       if rhs.startsWith "panic" then .bad "decode-panic-gt" rhs else
       match GT.decode blsP 48 b with
       | none => mirror "reject" rhs
-      | some cs => mirror ("ok:" ++ joinComma (cs.map natToHex)) rhs
+      | some cs =>
+        let m := "ok:" ++ joinComma (cs.map natToHex)
+        -- property: accepted ⇒ the twelve components are the bytes read mod p; canonical encodings are accepted
+        if rhs.startsWith "ok:" then spec "gt-value" m rhs
+        else if GT.encode 48 cs == b then .bad "gt-rejects-valid" ("rejected a canonical encoding, expected=" ++ m)
+        else mirror m rhs
   | "gtenc", [cs] =>
     match parseNatList? cs with
     | some c => mirror (hexOf (GT.encode 48 c)) rhs
@@ -309,6 +375,8 @@ def handle (op : String) (args : List String) (rhs : String) : Verdict :=
       -- property: an accepted string denotes `bytes mod order`
       if rhs.startsWith "ok:" && rhs != "ok:" ++ natToHex (beNat b % q) then
         .bad ("scalar-frombytes-" ++ name) ("expected=ok:" ++ natToHex (beNat b % q) ++ " observed=" ++ rhs)
+      else if rhs == "reject" && b.length == len && beNat b < q then
+        .bad ("scalar-rejects-canonical-" ++ name) ("rejected the canonical encoding of " ++ natToHex (beNat b))
       else mirror (match model with | some v => "ok:" ++ natToHex v | none => "reject") rhs
     | _, _, _ => .unsupported "sfb args"
   | "sbytes", [name, qs, ls, vs] =>
@@ -330,6 +398,14 @@ def handle (op : String) (args : List String) (rhs : String) : Verdict :=
         .bad ("scalar-fromwide-" ++ name) ("expected=ok:" ++ natToHex (beNat b % q) ++ " observed=" ++ rhs)
       else mirror (match Scalar.fromWideBytes q wide b with | some v => "ok:" ++ natToHex v | none => "reject") rhs
     | _, _, _ => .unsupported "swide args"
+  | "sred", [name, qs, bs] =>
+    match hexToNat? qs, bytesOf? bs with
+    | some q, some b =>
+      if rhs.startsWith "panic" then .bad ("scalar-panic-" ++ name) rhs else
+      -- property: the accepted string denotes `bytes mod order` (the API promises the reduction for every length)
+      if rhs.startsWith "ok:" then spec ("scalar-reduce-" ++ name) ("ok:" ++ natToHex (beNat b % q)) rhs
+      else mirror ("ok:" ++ natToHex (beNat b % q)) rhs
+    | _, _ => .unsupported "sred args"
   | _, cv :: fmt :: rest => handlePoint op cv fmt rest rhs
   | _, _ => .unsupported ("C13 op " ++ op)
 
